@@ -49,7 +49,8 @@ pub(crate) fn parse_directive(jsx_attr: &JSXAttr, is_component: bool) -> Directi
                 .split('_');
             (
                 lower_first(splitted.next().unwrap_or(&*ident.sym)),
-                splitted.next(),
+                // only `v-name:arg` carries an argument; every `_` suffix is a modifier
+                None,
                 splitted,
             )
         }
